@@ -10,34 +10,38 @@ Definition ts_of_bytes (l : list N) : Z :=
 
 Record entry := mkEntry { e_time : Z; e_frame : frame }.
 
-(* the underlying io.Writer: [budget] = number of Write calls that will still succeed; a
-   failing call writes nothing and returns an error *)
+(* the underlying io.Writer: an oracle says, call by call, whether the next Write succeeds (an
+   exhausted oracle fails); a failing call writes nothing and returns an error.  "The k-th Write
+   and all later ones fail" is the oracle [repeat true (k-1)]; a transient failure is a [false]
+   followed by [true]s. *)
 Definition err_write : N := 50.
-Definition uwrite (budget : nat) (file bs : list N) : res unit * nat * list N :=
-  match budget with
-  | O => (Err err_write, O, file)
-  | S b => (Ok tt, b, file ++ bs)
+Definition uwrite (o : list bool) (file bs : list N) : res unit * list bool * list N :=
+  match o with
+  | true :: t => (Ok tt, t, file ++ bs)
+  | false :: t => (Err err_write, t, file)
+  | [] => (Err err_write, [], file)
   end.
 
-(* tlog.Writer.Write: the frame is encoded first; nothing reaches the file when that fails *)
-Definition tlog_write (d : option dialect) (budget : nat) (file : list N) (e : entry)
-  : res unit * nat * list N :=
+(* tlog.Writer.Write: the frame is encoded first; nothing reaches the file when that fails; the
+   writer keeps no state between entries *)
+Definition tlog_write (d : option dialect) (o : list bool) (file : list N) (e : entry)
+  : res unit * list bool * list N :=
   match frame_write d (e_frame e) with
   | (Ok fb, _) =>
-    match uwrite budget file (ts_bytes (e_time e)) with
-    | (Ok _, b1, file1) => uwrite b1 file1 fb
+    match uwrite o file (ts_bytes (e_time e)) with
+    | (Ok _, o1, file1) => uwrite o1 file1 fb
     | other => other
     end
-  | (Err x, _) => (Err x, budget, file)
-  | (Panic, _) => (Panic, budget, file)
+  | (Err x, _) => (Err x, o, file)
+  | (Panic, _) => (Panic, o, file)
   end.
 
-Fixpoint tlog_write_all (d : option dialect) (budget : nat) (file : list N) (es : list entry)
+Fixpoint tlog_write_all (d : option dialect) (o : list bool) (file : list N) (es : list entry)
   : list (res unit) * list N :=
   match es with
   | [] => ([], file)
-  | e :: t => let '(r, b, f) := tlog_write d budget file e in
-              let '(rs, f') := tlog_write_all d b f t in (r :: rs, f')
+  | e :: t => let '(r, o', f) := tlog_write d o file e in
+              let '(rs, f') := tlog_write_all d o' f t in (r :: rs, f')
   end.
 
 (* tlog.Reader.Read over the flat stream of the file (io.ReadFull(8), then frame.Reader.Read) *)
